@@ -360,6 +360,7 @@ pub struct Exec {
     pub diverged: bool,
     pub degenerate_ops: usize,
     pub total_ops: usize,
+    pub nondeterministic: bool,
 }
 
 /// One concurrent execution under a given strategy, judged against the reference.
@@ -441,7 +442,7 @@ pub fn execute(scn: &Scn, su: &Arc<Setup>, rf: &Reference, strategy: Strategy, s
             }
         }
     }
-    Ok(Exec { bad, trace: res.trace, choices: res.choices, enabled_counts: res.enabled_counts, diverged: res.diverged, degenerate_ops, total_ops })
+    Ok(Exec { bad, trace: res.trace, choices: res.choices, enabled_counts: res.enabled_counts, diverged: res.diverged, degenerate_ops, total_ops, nondeterministic: res.nondeterministic })
 }
 
 // ---------------------------------------------------------------------------------------
@@ -651,8 +652,12 @@ fn one_run(i: usize, run_seed: u64, b: &Budget) -> RunOut {
         };
         evals += 1;
         let th = sched::trace_hash(&ex.trace);
-        log.u64(th);
-        log.u64(ex.choices.len() as u64);
+        if ex.nondeterministic {
+            out.count("probe.baton_taken_from_thread_blocked_outside_model", 1);
+        } else {
+            log.u64(th);
+            log.u64(ex.choices.len() as u64);
+        }
         out.count(&format!("strategy.{}", sname), 1);
         out.count("sched_points", ex.trace.len() as u64);
         out.count("decisions", ex.choices.len() as u64);
